@@ -60,6 +60,9 @@ func VerifyNameErrorNSEC(msg *dns.Msg, nsecSet []dns.RR) error {
 	if covering == nil {
 		return ErrNSECMissingCoverage
 	}
+	if err := nsecCoverDeniesName(covering, qname, true); err != nil {
+		return err
+	}
 
 	ce := closestEncloserFromNSEC(qname, covering)
 	if ce == "" {
@@ -77,10 +80,50 @@ func VerifyNameErrorNSEC(msg *dns.Msg, nsecSet []dns.RR) error {
 	for _, rr := range nsecSet {
 		nsec := rr.(*dns.NSEC)
 		if nsecCovers(nsec.Header().Name, nsec.NextDomain, wildcard) {
-			return nil
+			// A wildcard that exists as an empty non-terminal still matches
+			// (RFC 4592 §2.2.2): the answer is NODATA, not NXDOMAIN.
+			return nsecCoverDeniesName(nsec, wildcard, true)
 		}
 	}
 	return ErrNSECMissingCoverage
+}
+
+// nsecCoverDeniesName vets an NSEC that covers name in canonical order
+// before it is used as proof that name does not exist. Canonical coverage
+// alone is not such a proof in two shapes a genuine chain produces:
+//
+//   - RFC 6840 §4.1, RFC 6672 §5.3.2: the owner is a proper ancestor of
+//     name and is a delegation point (NS without SOA) or owns a DNAME. The
+//     signer has no authority below a zone cut and every name below a DNAME
+//     is redirected, so that NSEC says nothing about names underneath it.
+//   - RFC 4035 §3.1.3.2 / RFC 8198 Appendix B: the next name is a proper
+//     descendant of name. Then name exists as an empty non-terminal, and the
+//     truthful answer for it is NODATA. Only callers that claim NXDOMAIN
+//     (denyENT) reject this shape.
+func nsecCoverDeniesName(nsec *dns.NSEC, name string, denyENT bool) error {
+	target, err := newAggressiveCanonicalName(name)
+	if err != nil {
+		return ErrNSECMissingCoverage
+	}
+	owner, err := newAggressiveCanonicalName(nsec.Header().Name)
+	if err != nil {
+		return ErrNSECMissingCoverage
+	}
+	if target.isStrictSubdomainOf(owner) &&
+		(aggressiveDelegationBitmap(nsec.TypeBitMap) ||
+			typesSet(nsec.TypeBitMap, dns.TypeDNAME)) {
+		return ErrNSECBadDelegation
+	}
+	if denyENT {
+		next, err := newAggressiveCanonicalName(nsec.NextDomain)
+		if err != nil {
+			return ErrNSECMissingCoverage
+		}
+		if next.isStrictSubdomainOf(target) {
+			return ErrNSECMissingCoverage
+		}
+	}
+	return nil
 }
 
 // closestEncloserFromNSEC derives the closest encloser of qname from the
@@ -165,6 +208,13 @@ func VerifyNODATANSEC(msg *dns.Msg, nsecSet []dns.RR) error {
 				return ErrNSECBadDelegation
 			}
 
+			// RFC 6840 §4.1: an NSEC from the parent side of a zone cut
+			// (NS without SOA) proves nothing about any type at that
+			// name other than DS — those types live in the child zone.
+			if q.Qtype != dns.TypeDS && aggressiveDelegationBitmap(nsec.TypeBitMap) {
+				return ErrNSECBadDelegation
+			}
+
 			return nil
 		}
 	}
@@ -187,6 +237,9 @@ func VerifyNODATANSEC(msg *dns.Msg, nsecSet []dns.RR) error {
 	}
 	if covering == nil {
 		return ErrNSECMissingCoverage
+	}
+	if err := nsecCoverDeniesName(covering, qname, false); err != nil {
+		return err
 	}
 	ce := closestEncloserFromNSEC(qname, covering)
 	if ce == "" {
